@@ -316,6 +316,11 @@ def rule_e(repo, chk, all_versions=False):
         chk.ob('C01.e', parents == {'try_stmt'}, None, 'grammar %s: except_clause only occurs in try_stmt (so get_definition returns a try_stmt for `except X as name`)' % g.version,
                str(parents), key='grammar-except-%s' % g.version)
     def_types |= {'try_stmt'}
+    # ... and, while the try statement is still being typed, the except_clause is complete but its parent is an error_node: get_definition
+    # hands out `node.parent` without looking at its type (parso/python/tree.py), so error_node is a definition kind too
+    gd = tc['get_definition_returns_parent_of_except_clause']
+    if gd:
+        def_types |= {'error_node'}
     f = repo.find('jedi.inference.syntax_tree', 'tree_name_to_values')
     handled = compared_constants(f, lambda e: isinstance(e, ast.Name) and e.id == 'typ')
     chk.floor('C01.e', len(handled), 8, '(types dispatched in tree_name_to_values)')
@@ -1190,5 +1195,40 @@ def rule_n(repo, chk):
     chk.floor('C01.n', n, 3, '(bracket content handed to the inference entry points)')
 
 
+def rule_o(repo, chk):
+    chk.clause('C01.o', 'sibling interface of parameter names: every method the documented wrapper api.classes.ParamName calls on the name it '
+                        'wraps (self._name.<m>()) is defined for every class of the ParamNameInterface family (signatures hand out tree, '
+                        'compiled, synthetic and unresolvable parameter names alike: an AttributeError there leaks out of a documented method)')
+    api = repo.cls('jedi.api.classes', 'ParamName')
+    used = set()
+    for fn in api.methods.values():
+        for x in own_nodes(fn):
+            if isinstance(x, ast.Call) and isinstance(x.func, ast.Attribute) and norm(x.func.value) == 'self._name':
+                used.add(x.func.attr)
+    chk.floor('C01.o', len(used), 4, '(methods ParamName calls on the wrapped name)')
+    base = repo.cls('jedi.inference.names', 'ParamNameInterface')
+    n = 0
+    for ci in [base] + repo.subclasses(base):
+        n += 1
+        have = {a for c in repo.mro(ci) for a in list(c.methods) + list(c.attrs)}
+        missing = sorted(a for a in used if a not in have)
+        chk.ob('C01.o', not missing, ci.node, 'parameter name class %s provides %s' % (ci.qual, ', '.join(sorted(used))), 'missing: %s' % missing,
+               key='param-interface|%s' % ci.key)
+    chk.floor('C01.o', n, 6, '(classes of the ParamNameInterface family)')
+    # the execution contexts a bound method can be given all answer infer_annotations (get_type_hint of a method asks for it)
+    ctxbase = repo.cls('jedi.inference.value.function', 'BaseFunctionExecutionContext')
+    k = 0
+    for ci in repo.subclasses(ctxbase):
+        k += 1
+        impl = [c for c in repo.mro(ci) if 'infer_annotations' in c.methods]
+        ok = bool(impl)
+        if ok:
+            body = impl[0].methods['infer_annotations'].body
+            ok = not any(isinstance(x, ast.Raise) and 'NotImplementedError' in norm(x) for st in body for x in ast.walk(st))
+        chk.ob('C01.o', ok, ci.node, 'execution context class %s implements infer_annotations (the base only raises NotImplementedError)' % ci.qual,
+               key='exec-context-interface|%s' % ci.key)
+    chk.floor('C01.o', k, 3, '(function execution context classes)')
+
+
 RULES = [('C01.a', rule_a), ('C01.b', rule_b), ('C01.c', rule_c), ('C01.d', rule_d), ('C01.e', rule_e), ('C01.f', rule_f),
-         ('C01.g', rule_g), ('C01.h', rule_h), ('C01.i', rule_i), ('C01.j', rule_j), ('C01.k', rule_k), ('C01.l', rule_l), ('C01.m', rule_m), ('C01.n', rule_n)]
+         ('C01.g', rule_g), ('C01.h', rule_h), ('C01.i', rule_i), ('C01.j', rule_j), ('C01.k', rule_k), ('C01.l', rule_l), ('C01.m', rule_m), ('C01.n', rule_n), ('C01.o', rule_o)]
